@@ -29,6 +29,7 @@ func (mon) Level(string) (string, string) {
 	return "exploration", "exhaustive lattice 9 field types x 16 source masks {tag default, JSON, env, cli} x {top-level, nested, doubly nested} x {comma, pipe tag syntax} x carriers {-config absolute, ~/ with HOME redirected, relative, CFG_CONFIG_B64, both (file wins), none} x legal cli spellings x value schemes (every pool value - zero, one, extremes, awkward strings, byte slices - in every source position, plus an empty text per textual source over non-zero lower sources), each with a sibling field mentioned by exactly the complementary sources; " +
 		"plus a history lattice in which the struct value handed to NewFlagSet is not fresh - per type x mask x nesting x tag syntax (a) every leaf pre-filled with non-zero garbage of its type (also a random quarter of all other cases), (b) reload: an earlier NewFlagSet+Parse round on the same struct value in which the field was mentioned by each of the 8 subsets of {JSON, env, cli} with other values, then the round under test, judged by its own sources only (the model never looks at the prior content); " +
 		"plus seeded random structs of 1..12 fields with independent masks, a quarter of them pre-filled and a quarter after an earlier random round. " +
+		"In a quarter of all cases the built-in usage flag is on the command line (-help, --help, -help=true, --help=true, -help=false; shuffled among the flags, first or last): the expected values are the same, ShowUsage() is only counted. An eighth of all cases give the FlagSet itself a past: one NewFlagSet, an earlier Parse call with sources of its own - ordinary, or made to fail after valid flags were seen (undefined flag, missing value, unparsable cli value, unparsable environment value, broken JSON) - then the call under test on the same FlagSet, judged by its own sources whenever it returns nil (a refusal is counted, not judged). " +
 		"The thorough tier runs the same lattice over larger value pools and nesting depths 0,1,2,3,5: integers around 2^7..2^63 incl. 2^53+-1 and Min/MaxInt64/MaxUint64, floats -0 / subnormal / smallest normal / max / 1e23 in the spellings g, e, E, f and 25 digits, durations around every unit border spelled in every unit (ns, us, both micro signs, ms, s, m, h, fractional seconds, all units spelled out), strings with every JSON escape style, Unicode borders, look-alikes of other types, invalid UTF-8 (text sources), 4 KiB and 64 KiB values, byte slices of every padding length up to 64 KiB; JSON documents additionally CRLF/tab/blank padded and with every scalar member (and every top-level object) written twice with the identical value; identifiers with digits and underscores and 400 two-word names; " +
 		"and adds: wide structs of 50..200 fields (flat, flat at the bottom of 1..5 levels, or spread over 5 levels) with independent masks; large values (64 KiB+1 and 1 MiB strings and byte slices in the tag, either JSON carrier, environment and command line, 15 masks x 3 carriers); reload chains of 3..5 NewFlagSet+Parse rounds on one struct value; 2..8 FlagSets of one struct type made and parsed in goroutines released together, each with its own struct value and command line (also under -race when ./check builds the race binary of this monitor); " +
 		"distinct_nontrivial = distinct structural signatures (carrier, path kind, decoy, history; per field type, mask, depth, tag syntax, cli spelling, which sources are empty/zero) of cases in which at least one winning source says something else than the next lower source"
@@ -41,6 +42,8 @@ func (mon) Assumptions(string) []string {
 		"environment names are taken from a hand-written table (CFG_ + group path + field, upper snake case): plain CamelCase words, and identifiers that walk the word-boundary rule glb documents ('ABc => A_Bc' and the Underscore test table) at the start, in the middle and at the end of a name - a capital starts a word after a lower-case letter or before one (UserIDs = USER_I_DS, TLSv1 = TL_SV1), digits stay with the word before them and a capital after a digit starts a word only before a lower-case letter (Http2Tx = HTTP2_TX, A1B = A1B), underscores are boundaries",
 		"integer text (tag default, env, command line) follows Go integer-literal syntax as in the standard flag package, which config mirrors - decimal, 0x / 0o / 0b, leading-0 octal, _ separators - the syntax all four integer kinds parse with today (strconv base 0) and the one the C10 reference grammar assumes too; the statement itself does not spell it out",
 		"an environment variable such as CFG_CONFIG naming a file is not a source of the configuration path (the statement names -config and CFG_CONFIG_B64 only)",
+		"the usage flag on the command line suspends nothing: after a successful Parse the fields hold what the sources say, whether or not ShowUsage() is true",
+		"a second Parse on one FlagSet may be refused; if it returns nil the fields must follow that call's sources only (nothing recorded by an earlier call, failed or not, may show through)",
 		"JSON null, unknown JSON keys and case-folded key matching are not generated; a Duration is never written as a JSON string and base64 is never written without padding (neither is accepted)",
 		"a JSON document that writes a member twice with the identical value mentions the field with that value (thorough tier only; members with two different values are never generated)",
 		"durations in text may be spelled in any unit time.ParseDuration knows (the package's own tests write 5m and 10s), floats in any of the spellings g/e/E/f of strconv.FormatFloat",
@@ -240,6 +243,8 @@ func (mon) Finish(prop, tier string, mg *drv.Merged) (inconclusive []string) {
 			}
 		}
 		for _, w := range []string{"winner_cli", "winner_env", "winner_json", "winner_default", "winner_none", "winner_is_empty_text",
+			"parses_with_show_usage_true", "flagset_second_parse_refused", "flagset_first_parse_ordinary", "flagset_first_parse_failed_as_planned_unknown-flag",
+			"flagset_first_parse_failed_as_planned_missing-value", "flagset_first_parse_failed_as_planned_bad-value", "flagset_first_parse_failed_as_planned_bad-env", "flagset_first_parse_failed_as_planned_bad-json",
 			"history_prefilled_cases", "history_reload_cases", "history_fields_prestate_differs", "history_fields_prestate_differs_want_zero_by_omission"} {
 			if mg.Sum[w] == 0 {
 				inconclusive = append(inconclusive, "no field observed with "+w)
